@@ -346,6 +346,10 @@ class GenCfg:
         self.p_prethreaded = 0.0   # share of loops that already carry the state as iter_arg/result
         self.p_branch_first = 0.08 # `if c { triple V }` directly followed by the same triple V (an accelerator may
                                    # be configured for the first time inside the branch)
+        self.p_if_result = 0.0     # share of scf.if ops that also yield an i32 (different value per branch); the
+                                   # result joins the value pool, so a following setup may use it (added by the audit)
+        self.p_efffull = 0.0       # share of opaque-call items that are an op annotated accfg.effects<full>
+                                   # (a non-call "test.op" or a func.call): clobbers like an unannotated call
         for k, v in kw.items():
             setattr(self, k, v)
 
@@ -472,6 +476,29 @@ class _Gen:
                     lines.append(f"{ind}{c} = arith.cmpi {pred}, {rng.choice(idx_vars)}, {k} : index")
                 else:
                     c = self.param("i1", "cond")
+                if cfg.p_if_result and rng.random() < cfg.p_if_result:
+                    # the scf.if also computes an integer: both branches yield an i32, the result is visible
+                    # to everything that follows (in particular to the setup right behind the scf.if)
+                    q = self.fresh("q")
+                    y1, y2 = rng.choice(pool), rng.choice(pool)
+                    lines.append(f"{ind}{q} = scf.if {c} -> (i32) {{")
+                    lines += self.block(pool, depth + 1, ind + "  ", idx_vars)
+                    lines.append(f"{ind}  scf.yield {y1} : i32")
+                    lines.append(f"{ind}}} else {{")
+                    lines += self.block(pool, depth + 1, ind + "  ", idx_vars)
+                    lines.append(f"{ind}  scf.yield {y2} : i32")
+                    lines.append(f"{ind}}}")
+                    last_state = {}
+                    self.nifs += 1
+                    pool.append(q)
+                    # most of the time a triple that uses the result follows directly
+                    if rng.random() < 0.7:
+                        a = rng.choice(self.accs)
+                        vals = [(f, rng.choice(pool)) for f in self.fields[a]]
+                        j = rng.randrange(len(vals))
+                        vals[j] = (vals[j][0], q)
+                        lines += self.triple(pool, ind, last_state, force=(a, vals))
+                    continue
                 lines.append(f"{ind}scf.if {c} {{")
                 lines += self.block(pool, depth + 1, ind + "  ", idx_vars)
                 lines.append(f"{ind}  scf.yield")
@@ -484,6 +511,13 @@ class _Gen:
                 self.nifs += 1
             elif r < cfg.p_for + cfg.p_if + cfg.p_call:
                 callee = rng.choice(["@foo", "@bar"])
+                if cfg.p_efffull and rng.random() < cfg.p_efffull:
+                    last_state = {}
+                    if rng.random() < 0.6:
+                        lines.append(f'{ind}"test.op"() {{"accfg.effects" = #accfg.effects<full>}} : () -> ()')
+                    else:
+                        lines.append(f'{ind}func.call {callee}() {{"accfg.effects" = #accfg.effects<full>}} : () -> ()')
+                    continue
                 attr = ' {"accfg.effects" = #accfg.effects<none>}' if rng.random() < cfg.p_noeff else ""
                 if attr == "" and rng.random() < cfg.p_llvm:
                     self.uses_llvm = True
@@ -538,7 +572,7 @@ def gen_inputs(rng, info: dict, style: str | None = None) -> list[int]:
         elif kind == "lb":
             lb = rng.choice([0, 0, 1, 2, 5, -3])
             st = rng.choice([1, 1, 2, 3])
-            trip = rng.choice([0, 0, 1, 2, 2, 3, 4]) if style is None else {"zero": 0, "one": 1, "many": 3}[style]
+            trip = rng.choice([0, 0, 1, 2, 2, 3, 4]) if style is None else {"zero": 0, "one": 1, "two": 2, "many": 3}[style]
             out.append(lb)
         elif kind == "ub":
             ub = lb + trip * st - (rng.randint(0, st - 1) if trip > 0 else rng.choice([0, 1, 4]))
